@@ -9,6 +9,7 @@ CONSTANTS
   Ops <- AllOps
   Aging = FALSE
   TwoStep = FALSE
+  RecAging = TRUE
 INVARIANTS NoPanic
 PROPERTIES CallsReturn WaitsReturn PlansEnd
 CHECK_DEADLOCK FALSE
